@@ -42,6 +42,18 @@ Theorem C13_object_order_free : forall kvs kvs',
 Proof. exact object_order_free. Qed.
 Print Assumptions C13_object_order_free.
 
+(** ... and neither does its TEXT as the string functions (concat, toUpperCase, contains, substring,
+    parse .. from) see it: [to_display] is a function of the value, which is order free (f3ac142) *)
+Theorem C13_object_text_order_free : forall kvs kvs',
+  Permutation kvs kvs' -> NoDup (map fst kvs) ->
+  to_display (json_to_value (JObj kvs)) = to_display (json_to_value (JObj kvs')).
+Proof. intros kvs kvs' Hp Hn. f_equal. exact (object_order_free kvs kvs' Hp Hn). Qed.
+Print Assumptions C13_object_text_order_free.
+Example C13_object_text_example :
+  to_display (json_to_value (JObj [(lit "b", JInt 2); (lit "a", JObj [(lit "z", JNull); (lit "y", JStr (lit "q"))])])) =
+  Ok (lit "{""a"": Obj({""y"": Str(""q""), ""z"": None}), ""b"": Int(2)}").
+Proof. vm_compute. reflexivity. Qed.
+
 (** grouping does not depend on which of several equal keys is met first: == is an equivalence *)
 Theorem C13_group_identity : forall a b c,
   veqb a a = true /\ veqb a b = veqb b a /\ (veqb a b = true -> veqb b c = true -> veqb a c = true).
